@@ -22,6 +22,8 @@ var c11Queries = []string{
 	"SELECT a, `distinct=>dup` AS d FROM t WHERE a > ?",
 	"SELECT p FROM `mix=>t.items` WHERE p > ?",
 	"SELECT a, `items[0].p` AS p0, `dup[(0:1)]` AS d FROM t WHERE a > ?",
+	"SELECT a, `grid[each:(0:1)]` AS heads, `grid[(0:1):(1:2)]` AS mid FROM t WHERE a > ?",
+	"SELECT a, `grid[keep=>each:(0:2)]` AS k, `mix=>grid[keep=>each:(0:1)]` AS m FROM t WHERE a > ?",
 	"SELECT a FROM t WHERE EXISTS (SELECT * FROM w WHERE w > ?)",
 	"SELECT a, (SELECT w FROM w WHERE w > ?) AS s FROM t",
 	"SELECT a, (WITH c AS (SELECT p FROM items) SELECT p FROM c) AS s FROM t WHERE a > ?",
@@ -42,7 +44,7 @@ var c11Queries = []string{
 	"SELECT x.a AS k, y.w AS v FROM t x LEFT JOIN u y ON x.a = y.a WHERE x.a > ? ORDER BY k",
 }
 
-const c11FirstJoin = 23
+const c11FirstJoin = 25
 
 var faultAt, faultCalls int
 
@@ -73,6 +75,7 @@ func H_C11_readonly() {
 		r["dup"] = []any{r["a"], float64(1), r["a"], float64(2), float64(1), float64(3)}
 		// a nested table whose rows have a single key spelled like the table
 		r["w"] = []any{Map{"w": r["a"]}, Map{"w": float64(3)}}
+		r["grid"] = []any{[]any{r["a"], float64(1), float64(2)}, []any{float64(3), r["a"], float64(5)}, []any{float64(6), float64(7), float64(8)}}
 	}
 	if qi >= c11FirstJoin {
 		if wrapped == 1 || faultAt != 0 || k != 1 {
@@ -113,8 +116,13 @@ func H_C11_readonly() {
 		return b
 	}
 	for _, r := range rows {
-		for _, k := range []string{"items", "dup", "w"} {
+		for _, k := range []string{"items", "dup", "w", "grid"} {
 			if a, ok := r[k].([]any); ok {
+				if k == "grid" {
+					for i := range a {
+						a[i] = spare(a[i].([]any))
+					}
+				}
 				r[k] = spare(a)
 			}
 		}
